@@ -4,13 +4,14 @@ demo passes on the clean tree, fails with the patch, baseline suite still passes
 Confirmed ones are copied to /verif/seeded/<id>/ (patch.diff, demo.py, meta.json)."""
 import json, os, shutil, subprocess, sys
 from pathlib import Path
-SRC = Path('/tmp/mut/out'); DST = Path('/verif/seeded'); WT = Path('/tmp/seedchk')
+import os as _os
+SRC = Path(_os.environ.get('SEED_SRC', '/tmp/mut/out')); SUFFIX = _os.environ.get('SEED_SUFFIX', ''); DST = Path('/verif/seeded'); WT = Path('/tmp/seedchk')
 def sh(cmd, **kw): return subprocess.run(cmd, shell=True, capture_output=True, text=True, **kw)
 only = sys.argv[1:]
 sh(f'git -C /repo worktree remove --force {WT}'); sh(f'git -C /repo worktree add --detach {WT} HEAD')
 res = {}
 for pd in sorted(SRC.glob('C*/[ab]')):
-    sid = pd.parent.name + pd.name
+    sid = pd.parent.name + pd.name + SUFFIX
     if only and sid not in only: continue
     if (DST/sid/'meta.json').exists() and not only: continue
     patch, demo = pd/'patch.diff', pd/'demo.py'
